@@ -109,10 +109,25 @@ def run(res, prop, propfile, corpus, *, entry="VT", use_ctx=False, spec=True, al
                            "compiler": "\n".join(errs.get(m["pkg"], []))[:2000],
                            "what": "the generated code for this documented declaration does not compile"})
             continue
+        if not m["generated"] and r["cert"]:
+            continue        # the generator model agrees that this struct has no applicable rule: no file is the right outcome
         if require_generated and not m["generated"]:
             res.violation({"kind": "no-file-generated", "struct": m["key"], "source": src,
                            "what": "govalid wrote no validator for a struct that carries rules"})
             continue
+        if r.get("safe"):
+            what = []
+            if r["safe"] & 1:
+                what.append("the emitted code assigns to a package-level sentinel (ASetGlobalValue): hypothesis of C16_no_shared_writes fails")
+            if r["safe"] & 2:
+                what.append("the nil-receiver guard is missing: hypothesis of C17_no_panic fails")
+            if r["safe"] & 4:
+                what.append("the function does not end with `if len(errs) > 0 { return errs }; return nil`")
+            if r["safe"] & 8:
+                what.append("Validate<T>, Validate or ValidateContext do not delegate to Validate<T>Context as documented")
+            res.violation({"kind": "correspondence-break", "struct": m["key"], "source": src, "what": "; ".join(what),
+                           "theorem": "side condition of the program-independent theorems, evaluated on the translated file p_%d" % i},
+                          found_input=bool(r["ms"] or r["mm"]))
         if m["problems"]:
             res.violation({"kind": "correspondence-break", "struct": m["key"], "source": src,
                            "what": "generated file is outside the GoLite fragment (untranslatable nodes)",
